@@ -54,9 +54,12 @@ Fixpoint ghost_run (W : Z) (s : spec) (pend : list wchunk) (ops : list op) : spe
   end.
 
 (* THE PROPERTY, as a relation between the history and the readable queue q:
-   q is exactly the newest |q| chunks of the history, and it contains every run of newest chunks that fits *)
+   q is exactly the newest |q| chunks of the history (in order, byte-identical), it is not empty unless the
+   history is (k >= 1: the very last chunk written is there), and it contains every run of newest chunks
+   that fits *)
 Definition Keeps (S : Z) (pend : list wchunk) (q : list chunk) : Prop :=
   suffix q (map snd pend) /\
+  (pend <> [] -> q <> []) /\
   forall l, suffix l pend -> rfits S l = true -> suffix (map snd l) q.
 
 (* all outputs of write operations report success (return value = okval, never an error, never out of fuel) *)
